@@ -31,7 +31,8 @@ TAGS = {
     1: 'to_dict differs from model', 2: 'json.loads(json.dumps(d)) differs from normalise d',
     3: 'from_dict(to_dict(x)) differs from model', 4: 'from_dict(json image) differs from model',
     5: '== differs from model', 6: '== (json way back) differs from model',
-    7: 'predecessors of output are not in node order', 8: 'equality of dictionary texts differs from model',
+    7: 'predecessors of output are not in node order', 8: 'equality of encoded texts differs from model',
+    10: 'encoded dictionary (hashing._encode) differs from model',
     9: 'key is not a function of (dataset bytes, dictionary text) alone',
     11: 'from_dict(to_dict(x)) != x', 12: 'from_dict(json.loads(json.dumps(to_dict(x)))) != x',
     13: 'equal content but different key / dictionary text', 14: 'different content but same key / dictionary text',
@@ -40,11 +41,12 @@ TAGS = {
     19: 'generic model file cannot be read back to an equal model',
     20: 'to_dict() is not accepted by json.dumps', 21: 'different dataset but same key',
 }
-CORR = (1, 2, 3, 4, 5, 6, 7, 8, 9)
+CORR = (1, 2, 3, 4, 5, 6, 7, 8, 9, 10)
 ORACLE = (11, 12, 13, 14, 15, 16, 17, 18, 19, 20, 21)
-F_DERIV, F_TUPLE, F_INTKEY, F_ORDER, F_GENFILE, F_MAPPING, F_SREPR = (
-    'C12-DERIVATIVES-TEXT', 'C12-JSON-TUPLE', 'C12-JSON-INTKEY', 'C12-HASH-ORDER', 'C12-GENERIC-READ',
-    'C12-CATEGORIES-MAPPING', 'C12-SREPR-DISTRIBUTES')
+F_DERIV, F_INTKEY, F_DEPORDER, F_SREPR = (
+    'C12-DERIVATIVES-TEXT', 'C12-JSON-INTKEY', 'C12-HASH-DEPVAR-ORDER', 'C12-SREPR-DISTRIBUTES')
+# fixed in /repo (cee2988, ddb8814, 30e26dc, e582408): C12-JSON-TUPLE, C12-HASH-ORDER, C12-GENERIC-READ,
+# C12-CATEGORIES-MAPPING -- their witnesses stay in regress/C12; a recurrence is a VIOLATION
 
 
 # ------------------------------------------------------------------ implementation side helpers
@@ -159,13 +161,17 @@ def observe(kind, x, ctx=None, with_generic=False):
         viastr, viafile = generic_roundtrip(x, ctx.rundir)
     cd = ex.canon_dict(kind, d)
     cd2 = ex.canon_dict(kind, d2) if dumps_ok else None
+    enc = None
+    if kind == 'model' and dumps_ok:
+        enc = 'Some ' + ex.pyv(ex.canon_dict(kind, encoded_dict(x)))
     term = ('(mkCase ' + '\n  '.join([
         ex.obj(kind, x), ex.pyv(cd), ex.pyv(cd2),
         'None' if back is None else f'(Some {ex.obj(kind, back)})',
         'None' if backj is None else f'(Some {ex.obj(kind, backj)})',
         cobool(eq_back), cobool(eq_json), ex.cbool(dumps_ok),
         ex.out_preds(x) if kind == 'csys' else 'None',
-        ex.cbool(ok), ex.cbool(idem), cobool(viastr), cobool(viafile)]) + ')')
+        ex.cbool(ok), ex.cbool(idem), cobool(viastr), cobool(viafile),
+        'None' if enc is None else f'({enc})']) + ')')
     info = {'kind': kind, 'leaves': nleaves, 'text_len': len(js), 'eq_back': eq_back, 'eq_json': eq_json,
             'dumps_ok': dumps_ok}
     return term, info
@@ -220,8 +226,19 @@ def observe_malformed(kind, x, rng):
     return term, {'kind': kind, 'what': what, 'error': err}
 
 
+def encoded_dict(m):
+    """What ModelHash digests of a model, read back: json.loads(hashing._encode(m))."""
+    from pharmpy.workflows.hashing import _encode
+    return json.loads(_encode(m).decode('utf-8'))
+
+
 def text_of(x):
-    return json.dumps(x.to_dict())
+    """The text that enters the key; a lone system is put into an otherwise empty model."""
+    from pharmpy.model import CompartmentalSystem, Model, Statements
+    from pharmpy.workflows.hashing import _encode
+    if isinstance(x, CompartmentalSystem):
+        x = Model.create('m', statements=Statements((x,)))
+    return _encode(x)
 
 
 def observe_pair(kind, a, b, keys=None):
@@ -337,6 +354,7 @@ def gen_parameter(rng, nan_ok=False):
         spec['lower'], spec['upper'] = rng.choice([(-5, 10), ('-inf', 'inf')])
     if nan_ok:
         spec['lower'] = 'nan'
+        spec['raw'] = True       # Parameter.create refuses NaN bounds (caae827); the plain constructor does not
     return spec
 
 
@@ -532,8 +550,6 @@ def gen_model_spec(rng, max_ops=3, hashable=False):
         name = rng.choice(GEN_OPS)
         if name in PHENO_ONLY and base != 'pheno':
             continue
-        if hashable and name == 'x_categories_dict':
-            continue
         ops.append([name, list(rng.choice(gen.OPS[name]))])
     return {'base': base, 'ops': ops}
 
@@ -646,8 +662,6 @@ def classify(ctx, spec, tags, pair=False):
         ok = False
         if 201 in tags:
             ok = known(F_DERIV) or ok
-        if 202 in tags:
-            ok = known(F_TUPLE) or ok
         if 203 in tags:
             ok = known(F_INTKEY) or ok
         return ok
@@ -666,22 +680,15 @@ def classify(ctx, spec, tags, pair=False):
             # NaN bound: outside the property's domain (x != x already); counted, not judged
             ctx.coverage['nan_cases'] = ctx.coverage.get('nan_cases', 0) + 1
             fine = True
-        elif 208 in tags and t in (11, 12) and not (tags & {5, 6}):
-            # `==` itself raises on this object (a system without a dosing compartment), as the model predicts
-            ctx.coverage['eq_raises_cases'] = ctx.coverage.get('eq_raises_cases', 0) + 1
-            fine = True
         elif t == 11:
             fine = 201 in tags and not (tags & {1, 3, 5}) and known(F_DERIV)
         elif t == 12:
             fine = excused_json()
-        elif t == 16:
+        elif t in (16, 19):
+            # the generic model code / file is the JSON way back of the whole model
             fine = 12 in tags and excused_json()
-        elif t == 19:
-            fine = known(F_GENFILE)
-        elif t == 20:
-            fine = 207 in tags and 2 not in tags and known(F_MAPPING)
         elif t == 13:
-            fine = 204 in tags and not (tags & {5, 8, 9}) and known(F_ORDER)
+            fine = 204 in tags and not (tags & {5, 8, 9, 10}) and known(F_DEPORDER)
         if not fine:
             ctx.violation(TAGS[t], {'spec': spec, 'pair': pair, 'tags': sorted(tags), 'tag_meaning': TAGS[t]})
             status = 'violation'
@@ -950,7 +957,6 @@ def run(ctx):
         'direct_roundtrip_unequal': sum(1 for v in verdicts if 11 in v),
         'json_roundtrip_unequal': sum(1 for v in verdicts if 12 in v),
         'guard_derivatives_false': sum(1 for v in verdicts if 201 in v),
-        'guard_tuple_false': sum(1 for v in verdicts if 202 in v),
         'guard_intkey_false': sum(1 for v in verdicts if 203 in v),
         'nan': sum(1 for v in verdicts if 205 in v),
         'engine_contract_failed': sum(1 for v in verdicts if 17 in v),
